@@ -8,6 +8,7 @@ from __future__ import annotations
 
 from ..paths import child_env
 import json
+import itertools
 import os
 import random
 import re
@@ -327,6 +328,22 @@ def compile_tu(text, path, table=None):
     return (path + ".ll" if r.returncode == 0 else None), r.stderr
 
 
+def signed_number_family(thorough):
+    """a power whose exponent (or base) is an identifier directly followed by a signed number: every combination
+    of base, exponent, sign, number spelling and what follows.  Fortran reads b**x-2.5*z as (b**x) - (2.5*z)."""
+    bases = ["Tgas", "3.e0", "(Tgas)", "user_a"] if thorough else ["Tgas", "3.e0"]
+    exps = ["user_beta", "Tgas", "invT"] if thorough else ["user_beta", "invT"]
+    nums = ["2.5d0", "1d-9", "2", "3.5"] if thorough else ["2.5d0", "2"]
+    tails = ["", "*invT", "+Tgas", "-Tgas", "/invT", "*2.0", "+1.0", ")"]
+    out = []
+    for b, x, sg, n, t in itertools.product(bases, exps, "+-", nums, tails):
+        e = f"{b}**{x}{sg}{n}{t}"
+        out.append("(" + e if t == ")" else e)
+        if t in ("", "*invT", "+Tgas"):
+            out.append(f"{x}{sg}{n}**{b}{t}")  # the same on the base side
+    return out
+
+
 def main(pid, tier):
     chk = Check("C12", tier)
     proj.ensure_venv()
@@ -335,6 +352,7 @@ def main(pid, tier):
     work = os.path.join(proj.scratch_root(), "c12")
     os.makedirs(work, exist_ok=True)
     exprs = gen_exprs(1200 if thorough else 260, chk.seed) + bundled_exprs(thorough)
+    exprs += [e for e in signed_number_family(thorough) if e not in exprs]
     global USER
     USER = sorted(set(USER) | {m for e in exprs for m in re.findall(r"\buser_\w+", e)})
     tr = translate(exprs, work)
@@ -477,8 +495,10 @@ def shape_key(fe, ce=""):
         return "lexer:signed-number-glued-to-preceding-variable"
     # same lexer feature on the exponent side: 'a**v+1d-9' -> pow(a, v+1e-9)
     f = fe.replace(" ", "")
+    # (the recorded defect glues only when another + or - follows the number: 'a**v+1d-9+w'; before '*', '/', ')' or the
+    # end of the expression the exponent is split correctly)
     if re.search(r",[A-Za-z_]\w*[+-]\d[\w.+-]*\)", c) and \
-            re.search(r"\*\*[A-Za-z_]\w*[+-][\d.]", f):
+            re.search(r"\*\*[A-Za-z_]\w*[+-](?:\d+\.?\d*|\.\d+)(?:[deDE][+-]?\d+)?[+-]", f):
         return "lexer:signed-number-glued-to-preceding-variable"
     if re.search(r"pow\(-[\d.]", c):
         return "lexer:signed-literal-as-power-base"
